@@ -285,6 +285,28 @@ def s25(rng):
     return "DdtGaussKin", cfg, h, True
 
 
+@scen("re-draws: IFU lambda + truncated gamma_in / log_m2l")
+def s28(rng):
+    # the truncated populations (gamma_in / log_m2l outside the interpolation grid) are re-drawn; every re-draw must
+    # again come from the lens' own declared populations (IFU lambda scatter, not the sample-wide one)
+    lt = rng.choice(["DdtGaussKin", "IFUKinCov", "DdtGaussian"])
+    cfg, h = base_cfg(rng, lt)
+    ifu = rng.random() < 0.7
+    cfg.update(mst_ifu=ifu, lambda_mst_distribution="GAUSSIAN", gamma_in_sampling=True, gamma_in_distribution="GAUSSIAN",
+               alpha_gamma_in_sampling=True, log_m2l_sampling=rng.random() < 0.5, num_distribution_draws=rng.choice([8, 12]))
+    names, axes = ["gamma_in"], [np.linspace(0.5, 1.5, 5)]
+    if cfg["log_m2l_sampling"]:
+        names.append("log_m2l")
+        axes.append(np.linspace(0.0, 1.0, 4))
+    cfg["_grid"] = (names, axes)
+    h["kwargs_lens"].update(lambda_ifu=rng.uniform(0.9, 1.1), lambda_ifu_sigma=rng.choice([0.05, 0.0, 0.02]),
+                            lambda_mst_sigma=rng.choice([0.0, 0.03, 0.08]),
+                            gamma_in=rng.choice([1.4, 0.6, 1.0]), gamma_in_sigma=0.3, alpha_gamma_in=rng.choice([0.0, 0.1]))
+    if cfg["log_m2l_sampling"]:
+        h["kwargs_lens"].update(log_m2l=rng.choice([0.9, 0.1, 0.5]), log_m2l_sigma=0.25, alpha_log_m2l=rng.choice([0.0, 0.1]))
+    return lt, cfg, h, True
+
+
 def gen_case(rng, k):
     name, f = SCENARIOS[k % len(SCENARIOS)]
     lt, cfg, h, applicable = f(rng)
@@ -327,6 +349,11 @@ def oracle(case, runs):
                 want = -math.inf
             if not close(o1["value"], want, 1e-10):
                 fails.append("value %r is not log(mean(exp l_i)) = %r" % (o1["value"], want))
+        # every draw of every evaluation (re-draws of truncated populations included) comes from a declared population
+        bad = lc.undeclared_requests(case["cfg"], case["hyper"], r1)
+        if bad:
+            fails.append("draw request not from a declared population: np.random.normal(loc=%r, scale=%r) (request %d of %d); declared: %s"
+                         % (bad[0][1], bad[0][2], bad[0][0], len(r1.normals), lc.declared_pairs(case["cfg"], case["hyper"])))
     else:
         if len(r1.data) != 1:
             fails.append("all applicable scatters are zero but %d evaluations instead of 1" % len(r1.data))
@@ -363,14 +390,13 @@ def run(ctx, res):
                       "singles": [f2b(x) for x in r1.singles]})
         meta.append(("hyper", case, o1, r1))
         # first single evaluation: requests (loc, scale) and routed arguments under scatter
-        if r1.spans:
-            n0, n1, g0, g1, k0, d0 = r1.spans[0]
+        for si, (n0, n1, g0, g1, k0, d0) in enumerate(r1.spans[:ctx.n(3, 12)]):
             lines.append({"op": "Lens.single", "cfg": lc.encode_cfg(lens, case["ltype"]), "hyper": lc.encode_hyper(case["hyper"]),
                           "ddt": f2b(case["ddt"]), "dd": f2b(case["dd"]), "dLum": f2b(case["dlum"]), "beta": lc.opt(case["beta"]),
                           "ext": {"losDraw": (f2b(r1.gev[g0]) if g1 > g0 else None),
                                   "kinScaling": [f2b(x) for x in (r1.kin[k0][1] if len(r1.kin) > k0 else [])]},
                           "stream": [f2b(r) for _, _, r in r1.normals[n0:n1]], "fuel": 200})
-            meta.append(("single", case, o1, r1))
+            meta.append(("single%d" % si, case, o1, r1))
     if ctx.search_mode:
         return
     outs = run_driver(lines)
@@ -392,7 +418,7 @@ def run(ctx, res):
                 if not close(want, o1["value"], 1e-12):
                     res.disagree("log-mean-exp: model %r implementation %r" % (want, o1["value"]), cj)
         else:
-            n0, n1, g0, g1, k0, d0 = r1.spans[0]
+            n0, n1, g0, g1, k0, d0 = r1.spans[int(kind[6:])]
             reqs = [(b2f(a), b2f(b)) for a, b in m["reqs"]]
             got = [(a, b) for a, b, _ in r1.normals[n0:n1]]
             if m["left"] != 0 or len(reqs) != len(got) or not all(close(x[0], y[0], 1e-12) and close(x[1], y[1], 1e-12) for x, y in zip(reqs, got)):
